@@ -70,6 +70,12 @@ def domain(tname: str, chars: Sequence[Any]) -> List[Any]:
     """D_P: printable ASCII; for Time_Period the positions that can end up inside a VARCHAR->INTEGER / ->DATE cast hold a
     digit or a character no numeric spelling can contain (indicator / separator positions excepted)."""
     pre = [And(Ge(c, LO), Le(c, HI)) for c in chars]
+    if len(chars) >= 4:
+        # four leading digits are a year of 1000..9999 (the calendar closed forms are validated for those years)
+        # (written per character - first digit not '0' - so that the solver-free pruner can use it)
+        pre.append(Or(*[Not(is_dig(c)) for c in chars[:4]], Ge(chars[0], 49)))
+        if tname == "Time" and len(chars) >= 15:
+            pre.append(Or(*[Not(is_dig(c)) for c in chars[11:15]], Ge(chars[11], 49)))
     if tname == "Time_Period":
         n = len(chars)
         for i in range(5, n):
@@ -78,7 +84,7 @@ def domain(tname: str, chars: Sequence[Any]) -> List[Any]:
             if i == 5:
                 ok = Or(ok, And(Eq(chars[4], 45), is_letter(c)))
             if i == 7 and n >= 10:
-                ok = Or(ok, And(Eq(chars[4], 45), Eq(c, 45)))
+                ok = Or(ok, And(Eq(chars[4], 45), Eq(c, 45), Not(is_letter(chars[5]))))
             pre.append(ok)
         if n >= 10:
             # a date prefix is canonical digits or clearly not a date: no blank / slash / dot inside it
@@ -94,7 +100,7 @@ ROLES = [("Measure", True), ("Measure", False), ("Identifier", False)]
 
 def lengths(tname: str, tier: str) -> List[int]:
     if tname == "Time_Period":
-        return list(range(1, 12)) if tier == "quick" else list(range(1, 14))
+        return list(range(1, 11)) if tier == "quick" else list(range(1, 14))
     if tname == "Duration":
         return [1, 2, 3]
     if tname == "Time":
@@ -144,22 +150,27 @@ def stored_is(tname: str, stored: SV, den: Any, chars: Sequence[Any], eng: Any) 
     raise AssertionError(tname)
 
 
+# the digit-shaped spellings of a Time_Period (blanks around, either letter case); what the fields hold is another matter
+TP_WELL_SHAPED = r" *\d{4}(-?[ASQMWDasqmwd]\d{0,3}|-\d{1,2}|-\d{2}-\d{2})? *"
+
+
 def classify(tname: str, s: str) -> str:
     """Stable identity of a failing input class (for known findings): which reading fails and how."""
     chars = [ord(c) for c in s]
     if tname == "Time_Period":
         t = s.strip().upper()
         import re
-        if re.fullmatch(r"\d{4}-\d{2}-\d{2}.+", t):
-            return "date-with-trailing-text"
+        if not re.fullmatch(TP_WELL_SHAPED, s):
+            # e.g. a date followed by text ('2020-01-15garbage', '2020-01-1#4' through SUBSTR(input, 1, 10) and DuckDB's
+            # lenient date parser), period numbers read by DuckDB's lenient integer cast ('2020M+5', '2020M 5', '2020M5.4',
+            # '2020-- '), text after the annual indicator ('1205aN')
+            return "not-well-shaped"
         m = re.fullmatch(r"(\d{4})-?([ASQMWD])(\d{0,3})", t) or re.fullmatch(r"(\d{4})-()(\d{1,2})", t)
         if m:
             ind = m.group(2) or "M"
             if ind == "A":
                 return "annual-with-number"
             return f"number-out-of-range::{ind}"
-        if re.fullmatch(r"\d{4}-?[ASQMWD]?.*", t) and any(ch in t[4:] for ch in "+ ._EX"):
-            return "lenient-integer-cast"
         return "malformed"
     if tname == "Date":
         import re
@@ -169,9 +180,10 @@ def classify(tname: str, s: str) -> str:
         return "malformed"
     if tname == "Time":
         import re
+        s = s.strip()
         if re.fullmatch(r"\d{4}", s) or re.fullmatch(r"\d{4}-\d{2}", s):
             return "documented-short-form-rejected"
-        if re.fullmatch(r"\d{4}-\d{2}-\d{2}(T\d{2}:\d{2}:\d{2})?/\d{4}-\d{2}-\d{2}(T\d{2}:\d{2}:\d{2})?", s):
+        if re.fullmatch(r"\d{4}-\d{2}-\d{2}(T\d{2}:\d{2}:\d{2})?/\d{4}-\d{2}-\d{2}(T\d{2}:\d{2}:\d{2})?", s, re.I):
             a, b = s.split("/")
             try:
                 import datetime
@@ -207,6 +219,7 @@ def _w_init() -> None:
     global _W_CONN
     from vc import sqlconf
     _W_CONN = sqlconf.conn()
+    _W_CONN.execute("SET threads = 1")      # one-row queries from 16 worker processes: DuckDB's own thread pool only thrashes
 
 
 def _w_run(job: Tuple[str, bool, List[Optional[str]]]) -> List[Tuple[str, Any]]:
@@ -226,6 +239,44 @@ def _w_run(job: Tuple[str, bool, List[Optional[str]]]) -> List[Tuple[str, Any]]:
         except Exception as e:  # noqa: BLE001
             out.append(("reject", f"{type(e).__name__}: {str(e)[:60]}"))
     return out
+
+
+def _w_judge(job: Tuple[str, bool, str, List[str]]) -> List[Tuple[str, Tuple[str, Any], str]]:
+    """native outcome + verdict of the specification, in the worker; only the failing strings travel back."""
+    q, nn, tname, vals = job
+    out = []
+    for s, r in zip(vals, _w_run((q, nn, list(vals)))):
+        w = judge(tname, s, r)
+        if w is not None:
+            out.append((s, r, w))
+    return out
+
+
+def _w_conform(job: Tuple[str, str, List[str]]) -> Tuple[int, Optional[str]]:
+    """model (constant folding of the symbolic interpreter) vs the real DuckDB on concrete strings -> (#compared, fault)."""
+    kind, tname, strs = job
+    core.boot(full=True)
+    comps = components(tname, "Measure", True)
+    prog = loadvc.extract_program(kind, comps, {c: "VARCHAR" for c in comps})
+    real = _w_run((native_query(prog), prog.not_null.get(X, False), list(strs)))
+    n = 0
+    for s, r in zip(strs, real):
+        eng = loadvc.LoadEngine()
+        row = {"Id_1": SV("str", CStr.lit("k"), False), X: SV("str", CStr.lit(s), False)}
+        ps = eng.explore(lambda: loadvc.run_row(eng, prog, row))
+        n += 1
+        if len(ps) != 1 or ps[0].kind == "abort":
+            return n, (f"model not deterministic / outside on concrete input {s!r} ({tname}/{kind}): "
+                       f"{[(p.kind, str(p.value)[:80]) for p in ps][:2]}")
+        m = ps[0].value
+        if m.accepted != (r[0] == "accept"):
+            return n, (f"model/DuckDB mismatch on {s!r} ({tname}/{kind}): model "
+                       f"{'accept' if m.accepted else 'reject ' + m.reason}, DuckDB {r}")
+        if m.accepted and tname in ("Time_Period", "Duration", "Time"):
+            mv = m.stored[X].v.concrete() if m.stored[X].sort == "str" and m.stored[X].null is False else None
+            if mv != r[1]:
+                return n, f"model/DuckDB value mismatch on {s!r} ({tname}/{kind}): model {mv!r}, DuckDB {r[1]!r}"
+    return n, None
 
 
 def native_many(prog: loadvc.LoadProgram, vals: List[Optional[str]], pool: Optional[ProcessPoolExecutor]) -> List[Tuple[str, Any]]:
@@ -548,10 +599,20 @@ def main() -> None:  # noqa: C901
             nob.finding_key = f"{tname}::{kind}::null::{role}"
     chk.extra["paths_explored"] = n_paths
 
-    conformance(chk, programs, rnd, pool)
-    bounded_complement(chk, programs, pool, known)
-    bounded_scalar_types(chk, pool, known)
-    structural(chk, known)
+    import time as _t
+    phases: Dict[str, float] = {}
+    chk.extra["slowest_analyses"] = sorted(
+        ((round(r.get("explore_s", 0) + r["sound"]["seconds"] + r["complete"]["seconds"], 1), f"{k[1]}/{k[0]}/len={k[4]}",
+          r.get("paths", 0)) for k, r in results.items()), reverse=True)[:8]
+    for name, fn_ in (("conformance", lambda: conformance(chk, programs, rnd, pool)),
+                      ("bounded_complement", lambda: bounded_complement(chk, programs, pool, known)),
+                      ("bounded_scalar_types", lambda: bounded_scalar_types(chk, pool, known)),
+                      ("structural", lambda: structural(chk, known))):
+        t0 = _t.time()
+        fn_()
+        phases[name] = round(_t.time() - t0, 1)
+    chk.extra["phase_seconds"] = phases
+    print(f"[C19] phases {phases}; slowest analyses {chk.extra['slowest_analyses'][:4]}", file=sys.stderr)
     pool.shutdown()
     chk.assume("character domain: code points 32..126; strings up to the length bounds listed per type (every documented "
                "form is shorter); years 1000..9998 for Time_Period/Time, 1800..9999 for Date")
@@ -568,9 +629,9 @@ def class_exclusion(tname: str, cls: str, chars: Sequence[Any]) -> Any:
     purpose of finding a DIFFERENT violation, and the class itself stays reported as known finding)."""
     n = len(chars)
     if tname == "Time_Period":
-        if cls == "date-with-trailing-text":
-            return Not(And(*[is_dig(chars[i]) for i in (0, 1, 2, 3, 5, 6, 8, 9) if i < n], Eq(chars[4], 45),
-                           Eq(chars[7], 45) if n > 7 else False, n > 10))
+        if cls == "not-well-shaped":
+            from vc import regexvc
+            return regexvc.fullmatch(TP_WELL_SHAPED, list(chars))     # only the digit-shaped spellings stay under examination
         if cls.startswith("number-out-of-range::") or cls == "annual-with-number":
             ind = cls.split("::")[1] if "::" in cls else "A"
             alts = []
@@ -588,9 +649,12 @@ def class_exclusion(tname: str, cls: str, chars: Sequence[Any]) -> Any:
         y = digits_value(chars[:4])
         return And(Ge(y, 1800), Le(y, 9999))
     if tname == "Time" and cls in ("start-after-end", "not-a-calendar-date"):
-        return False if n in (21, 30, 39) else True
+        # texts shaped like an interval (digit fields, optional times of day, blanks around): set aside as a whole
+        from vc import regexvc
+        return Not(regexvc.fullmatch(r" *\d{4}-\d{2}-\d{2}([Tt]\d{2}:\d{2}:\d{2})?/\d{4}-\d{2}-\d{2}([Tt]\d{2}:\d{2}:\d{2})? *",
+                                     list(chars)))
     if tname == "Time" and cls == "documented-short-form-rejected":
-        return False if n in (4, 7) else True
+        return Not(And(*[is_dig(c) for c in chars[:4]]))
     if tname == "Duration" and cls == "not-normalised":
         return And(*[Not(Eq(c, 32)) for c in chars], *[Not(And(Ge(c, 97), Le(c, 122))) for c in chars])
     return False     # unknown class: exclude everything (nothing further can be told apart on this path)
@@ -627,32 +691,19 @@ def in_domain(tname: str, s: str) -> bool:
 
 def conformance(chk: Check, programs: Dict[Any, loadvc.LoadProgram], rnd: random.Random, pool: Any) -> None:
     """Model (constant folding of the same interpreter) vs real DuckDB on concrete strings of the proof domain."""
-    n_cmp = 0
-    for (kind, tname, role, nullable), prog in programs.items():
+    jobs = []
+    for (kind, tname, role, nullable) in programs:
         if role != "Measure" or not nullable:
             continue
-        strs = [s for s in sample_strings(tname, rnd, 500 if chk.tier == "quick" else 3000) if in_domain(tname, s)]
-        strs = sorted(set(strs))
-        real = native_many(prog, list(strs), pool)
-        for s, r in zip(strs, real):
-            eng = loadvc.LoadEngine()
-            row = {"Id_1": SV("str", CStr.lit("k"), False), X: SV("str", CStr.lit(s), False)}
-            ps = eng.explore(lambda: loadvc.run_row(eng, prog, row))
-            n_cmp += 1
-            if len(ps) != 1 or ps[0].kind == "abort":
-                chk.fault(f"model not deterministic / outside on concrete input {s!r} ({tname}/{kind}): "
-                          f"{[ (p.kind, str(p.value)[:80]) for p in ps][:2]}")
-                return
-            m = ps[0].value
-            if m.accepted != (r[0] == "accept"):
-                chk.fault(f"model/DuckDB mismatch on {s!r} ({tname}/{kind}): model {'accept' if m.accepted else 'reject ' + m.reason}, "
-                          f"DuckDB {r}")
-                return
-            if m.accepted and tname in ("Time_Period", "Duration", "Time"):
-                mv = m.stored[X].v.concrete() if m.stored[X].sort == "str" and m.stored[X].null is False else None
-                if mv != r[1]:
-                    chk.fault(f"model/DuckDB value mismatch on {s!r} ({tname}/{kind}): model {mv!r}, DuckDB {r[1]!r}")
-                    return
+        strs = sorted({s for s in sample_strings(tname, rnd, 240 if chk.tier == "quick" else 3000) if in_domain(tname, s)})
+        for i in range(0, len(strs), 40):
+            jobs.append((kind, tname, strs[i:i + 40]))
+    n_cmp = 0
+    for n, fault in pool.map(_w_conform, jobs):
+        n_cmp += n
+        if fault:
+            chk.fault(fault)
+            break
     chk.extra["conformance_comparisons"] = n_cmp
 
 
@@ -671,11 +722,11 @@ def bounded_complement(chk: Check, programs: Dict[Any, loadvc.LoadProgram], pool
         if prog is None:
             continue
         fn = f"{IO}:{'register_dataframes' if kind == 'df' else 'load_datapoints_duckdb'}"
-        res = native_many(prog, list(strs), pool)
+        q, nn = native_query(prog), prog.not_null.get(X, False)
+        k = max(200, len(strs) // (core.NCPU * 4))
         bad: Dict[str, Tuple[str, str]] = {}
-        for s, r in zip(strs, res):
-            w = judge("Time_Period", s, r)
-            if w is not None:
+        for part in pool.map(_w_judge, [(q, nn, "Time_Period", strs[i:i + k]) for i in range(0, len(strs), k)]):
+            for s, r, w in part:
                 bad.setdefault(f"Time_Period::{kind}::{'complete' if r[0] == 'reject' else 'sound'}::{classify('Time_Period', s)}", (s, w))
         report_bounded(chk, fn, f"bounded::Time_Period::{kind}::lenient-cast-domain",
                        f"[Time_Period/{kind}] strings whose numeric field contains sign / blank / '.' / '_' / exponent / hex "
